@@ -402,7 +402,7 @@ MANIFEST = {
     "text": "Static decision of the unit-bookkeeping clauses of C02: for all 11 field functions and each of B,H,J,M the returned value is typed over "
             "(length, excitation, mu0) and must carry the right power of mu0 (44 obligations, every branch visited once); no second permeability "
             "constant may exist (package-wide constant folding); the magnet setters must cross-assign with the exported mu0 and handle None. "
-            "Mask placement of the +J term and surface points are not decided.",
+            "Mask placement of the +J term and surface points are not decided. Also decided: the region where J/M are kept equals the region where +-J enters B/H in every magnet field function (reaching-definition comparison), and the two excitation attributes are written atomically and on every normal setter exit.",
     "design_ref": "DESIGN.md §3 C02",
     "note": "Trusted: abstract interpreter + NumPy transfer table, declared parameter dimensions, one literal annotation (1e-7 = mu0/4pi), one triaged pure-number constant.",
     "technique": "static analysis: dimension-typing abstract interpretation, constant folding, def-use None-flow",
